@@ -1,0 +1,39 @@
+//go:build verif
+// +build verif
+
+// Client scenarios for deductive verification (compiled only with -tags verif; never part of the library).
+// Each function is ordinary client code over the public transaction API. It is verified against the
+// contracts of the methods it calls (not their bodies); its own postcondition is taken from property C13:
+// the values returned inside one write transaction are those of running its operations one after another.
+
+package nutsdb
+
+import "github.com/xujiajun/nutsdb/ds/zset"
+
+// two pops of one list in one transaction: the second must return the second element
+func verifScenarioDoubleLPop(tx *Tx, bucket string, key []byte) (a, b []byte, err error) {
+	a, err = tx.LPop(bucket, key)
+	if err != nil {
+		return
+	}
+	b, err = tx.LPop(bucket, key)
+	return
+}
+
+// a key written earlier in the same transaction must be readable by it
+func verifScenarioPutThenGet(tx *Tx, bucket string, key, value []byte) (e *Entry, err error) {
+	if err = tx.Put(bucket, key, value, Persistent); err != nil {
+		return nil, err
+	}
+	return tx.Get(bucket, key)
+}
+
+// two ZPopMax in one transaction must return two different members
+func verifScenarioDoubleZPopMax(tx *Tx, bucket string) (a, b *zset.SortedSetNode, err error) {
+	a, err = tx.ZPopMax(bucket)
+	if err != nil {
+		return
+	}
+	b, err = tx.ZPopMax(bucket)
+	return
+}
